@@ -151,6 +151,6 @@ Definition tU : @ptree Q := PNode [PLeaf DF64 [10; 20]; PLeaf DF64 [30; 40]].
 Example inner_example : inner tX tU /\ all_dtype DF64 tX /\ copies tX tU = 2%nat.
 Proof. cbn. repeat split. Qed.
 Example legacy2_example :
-  legacy2 castQ false (fun d => d) (fun _ => bop_ev BAdd) false tX (A2Tree tU)
+  legacy2 castQ (fun d => d) (fun _ => bop_ev BAdd) false tX (A2Tree tU)
   = Ok (PNode [PNode [PLeaf DF64 [10; 21]; PLeaf DF64 [32; 43]]; PNode [PLeaf DF64 [14; 25]; PLeaf DF64 [36; 47]]]).
 Proof. vm_compute. reflexivity. Qed.
